@@ -261,8 +261,13 @@ def main(tier, seed, replay=None):
         groups = {}
         for c in cells:
             groups.setdefault(c[0], []).append(c)
+        # within a position, identifiers that occur inside assignment targets (`a.b.c = v`, `xs[i].f += 1`) and keyword names come
+        # last in the list, i.e. are popped first: writing through a name is the rarer use of it
+        lhs = " ".join(re.findall(r"^\s*([A-Za-z_][\w\.\[\]\-]*)\s*(?:\+|-|\*|//|/|%)?=(?!=)", text, re.M))
+        lhs_ids = set(IDENT.findall(lhs))
         for g in groups.values():
             r.shuffle(g)
+            g.sort(key=lambda c: (c[1] in lhs_ids, name_class(c[2]) == "rust_keyword"))
         cells = []
         while any(groups.values()):
             for pos in sorted(groups):
